@@ -29,6 +29,11 @@ def main_texts(pool: dict[str, Any], rng: random.Random) -> list[str]:
 	# the same shape with another class at the same tree position (state keyed by position must not survive a re-submission)
 	for name in ('Alpha', 'Beta', 'Gamma'):
 		texts.append(f'class {name}:\n\tdef value(self) -> int:\n\t\treturn 1\ndef run() -> None:\n\ta = {name}()\n\tprint(a.value())')
+	# a submission rejected midway through symbol expansion (class and function already registered, then an undefined annotation),
+	# and accepted ones that re-use its class / function names with other types
+	texts.append('class Rec:\n\tdef f(self) -> int:\n\t\treturn 1\ndef g(a: Rec, u: Undefined) -> None:\n\tx = a.f()\n\tprint(x)')
+	texts.append("class Rec:\n\tdef f(self) -> str:\n\t\treturn 's'\ndef g(a: Rec) -> None:\n\tx = a.f()\n\tprint(x)")
+	texts.append('class Rec:\n\tdef f(self) -> float:\n\t\treturn 1.5\ndef g(a: Rec) -> None:\n\tx = a.f()\n\tprint(x)')
 	texts.append("def lone(k: int) -> int:\n\ts = 'x'\n\tn = len(s)\n\treturn k + n")
 	texts.append('def lone2(k: int) -> float:\n\tf = 1.5\n\treturn f')
 	texts.append('def bad(k: int) -> int:\n\treturn undefined_name + k')
@@ -392,6 +397,9 @@ class C04(Engine):
 			cases.append({'pool': pool, 'flavour': 'interactive', 'cache': 'lib', 'ops': [S(texts[-2]), S(texts[len(mods) - 1]), S(texts[-2]), S(texts[0])]})
 			same_shape = [t for t in texts if t.startswith('class Alpha') or t.startswith('class Beta') or t.startswith('class Gamma')]
 			cases.append({'pool': pool, 'flavour': 'interactive', 'cache': 'lib', 'ops': [S(same_shape[0]), S(same_shape[1]), S(same_shape[2]), S(same_shape[0])]})
+			rec = [t for t in texts if t.startswith('class Rec')]
+			cases.append({'pool': pool, 'flavour': 'interactive', 'cache': 'lib', 'ops': [S(rec[0]), S(rec[1]), S(rec[1])]})
+			cases.append({'pool': pool, 'flavour': 'interactive', 'cache': False, 'ops': [S(rec[2]), S(rec[0]), S(rec[0]), S(rec[1]), S(rec[2])]})
 		# prefix-related sibling modules: unloading src.a must not take anything of src.ab / src.a_b with it (and the other way round)
 		fan = pools.gen_pool(random.Random(9), shape='fan', n_variants=3, allow_invalid=False, names=['src.d', 'src.ab', 'src.a', 'src.a_b'], swap_p=0.0)
 		T = lambda m, **kw: {'op': 'transpile', 'm': m, **kw}
